@@ -351,6 +351,8 @@ def remove_bitstring(string, expect_unused=_sentry):
     body = string[1 + llen : 1 + llen + length]
     rest = string[1 + llen + length :]
     if expect_unused is not _sentry:
+        if not body:
+            raise UnexpectedDER("Length of bit string longer than the buffer")
         unused = str_idx_as_int(body, 0)
         if not 0 <= unused <= 7:
             raise UnexpectedDER("Invalid encoding of unused bits")
